@@ -61,6 +61,17 @@ def _value(rng, big=0.02):
         n = rng.choice([1, 2, 3, 5, 8, 13, 21, 40])
     return frame(bytes(rng.randrange(97, 123) for _ in range(n)))
 
+def longlived(sts):
+    """The recoveries of one stop point can be many seconds apart on a busy machine: no hold of these histories ends while they
+    run (a record that expires between two starts is finding A27 / the subject of the restart histories, not of these)."""
+    for st in sts:
+        if st.get("op") == "lock" and not (st["ef"] & 0x4000) and 0 < st["ex"] < 1200:
+            st["ex"] = st["ex"] + 1200 if not (st["ef"] & 0x40) else st["ex"] + 20
+        for sub in ("epoch2", "during", "reqs"):
+            if isinstance(st.get(sub), list):
+                longlived(st[sub])
+    return sts
+
 class Gen:
     def __init__(self, seed, idx, kind):
         self.rng = random.Random(seed * 1000003 + idx * 7919 + sum(map(ord, kind)) % 1000)
@@ -307,6 +318,9 @@ def gen_history(seed, idx, kind, aoftime=None):
             steps.append(g.burst(p))
         steps.append({"op": "stop", "cuts": rng.choice(["tail", "tail", "tail1"]), "e2mod": rng.choice([3, 5, 9]), "e2off": rng.randint(0, 8),
                       "epoch2": g.epoch2(p, rng.choice([2, 4]), horizon), "child": withburst})
+        # crash images are the subject, not expiry at restart: every hold outlasts the recovery phase (hundreds of starts,
+        # second epochs and third starts - minutes on a busy machine) by a wide margin
+        longlived(steps)
     elif kind == "compact":
         # C16: every file-system step of every compaction is imaged and recovered
         sc["imgcpt"] = True
@@ -336,13 +350,6 @@ def gen_burst(seed, idx, kind):
     horizon = 60
     body, ticks = g.body(p, rng.choice([0, 2, 5, 9]), horizon)
     cfg = dict(rng.choice([{"bufsize": 64}, {"bufsize": 64}, {"bufsize": 128}, {"bufsize": 256}, {"bufsize": 4096}, {}]))
-    def longlived(sts):
-        # the recoveries of one stop point (child processes) can be seconds apart on a busy machine: no hold of these
-        # histories ends while they run (a record that expires between two starts is finding A27, not the subject here)
-        for st in sts:
-            if st["op"] == "lock" and not (st["ef"] & 0x4000) and 0 < st["ex"] < 1200:
-                st["ex"] = st["ex"] + 1200 if not (st["ef"] & 0x40) else st["ex"] + 20
-        return sts
     steps = longlived(list(body))
     nb = rng.choice([1, 1, 2])
     for b in range(nb):
@@ -398,3 +405,113 @@ def gen_update(seed, idx, kind="compact"):
         steps.append({"op": "rewrite", "during": []})
         steps.append({"op": "stop"})
     return {"name": f"upd-{kind}-{seed}-{idx}", "kind": kind, "cfg": cfg, "back": ticks + rng.choice([2, 5, 12, 25]), "imgcpt": True, "steps": steps}
+
+
+def gen_preflush(seed, idx):
+    """C08: crash images taken at aof.flush.enter (records of the batch still in the write buffer), each followed by a second
+    epoch with value-carrying persist-immediately holds on fresh keys and a third start."""
+    g = Gen(seed, 800000 + idx, "crash")
+    rng = g.rng
+    p = g.profile()
+    p["ptick"], p["tickmax"], p["pvalue"] = 0.1, 1, 0.6
+    horizon = 60
+    body, ticks = g.body(p, rng.choice([2, 4, 7]), horizon)
+    steps = list(body)
+    # value-carrying persist-immediately requests: the first record of a flush batch carries a value
+    for j in range(rng.choice([1, 2, 3])):
+        d = g.lock(p, horizon, key=50 + j, to=0, ex=1800, flag=0)
+        d["ef"] = (d["ef"] & ~0x1340) | 0x0100
+        d["data"] = _value(rng, big=0.1)
+        steps.append(d)
+        if rng.random() < 0.3:
+            steps.append(g.lock(p, horizon, key=55 + j, to=0, ex=1800))
+    e2 = []
+    for j in range(rng.choice([2, 3])):
+        d = g.lock(p, horizon, key=110 + j, lid=1, to=0, ex=1800, flag=0, cnt=0, rc=0)
+        d["ef"] = 0x0100
+        d["data"] = _value(rng, big=0.1)
+        e2.append(d)
+    e2.append(g.lock(p, horizon, key=120, lid=1, to=0, ex=1800, flag=0, cnt=0, rc=0, ef=0x0100, data=""))
+    steps.append({"op": "stop", "cuts": "", "e2mod": 0, "e2off": 0, "epoch2": e2, "child": True})
+    longlived(steps)
+    cfg = dict(rng.choice([{"bufsize": 64}, {"bufsize": 128}, {"bufsize": 256}, {"bufsize": 4096}, {}]))
+    return {"name": f"preflush-{seed}-{idx}", "kind": "crash", "cfg": cfg, "back": ticks + rng.choice([2, 5, 12]), "imgcpt": False, "preflush": 3, "steps": steps}
+
+
+def gen_carrier(seed, idx):
+    """C07: the value of a shared key is set by holder A; holder B takes the key afterwards (its LOCK record is written after the
+    value operation); then A's records stop being replayed - A is released and a rotation + compaction drops them, or A's
+    deadline passes during the outage - while B lives on.  The restart must restore B with the key's value."""
+    g = Gen(seed, 900000 + idx, "restart")
+    rng = g.rng
+    p = g.profile()
+    p["ptick"], p["tickmax"] = 0.15, 1
+    horizon = 60
+    db = rng.choice(p["dbs"])
+    key = 80 + rng.randrange(4)
+    cnt = rng.choice([1, 1, 2, 5])
+    variant = rng.choice(["released-compacted", "released-compacted", "expired"])
+    cfg = dict(rng.choice([{"bufsize": 64}, {"bufsize": 128}, {"bufsize": 4096}]))
+    base = {"conn": 1, "db": db, "key": key, "tf": 0, "to": 0, "cnt": cnt, "rc": 0, "nodup": True}
+    cls = rng.choice([0x0100, 0x0100, 0])
+    steps, ticks = [], 0
+    pre, t0 = g.body(p, rng.choice([0, 2, 4]), horizon)
+    steps += longlived(pre)
+    ticks += t0
+    exa = 1800 if variant != "expired" else rng.choice([6, 9, 14])
+    steps.append(dict(base, op="lock", lid=1, flag=0, ef=cls, ex=exa, data=_value(rng, big=0.1)))
+    if rng.random() < 0.4:
+        # the value is changed once more by its holder (update flag) before the second holder arrives
+        steps.append(dict(base, op="lock", lid=1, flag=0x02, ef=cls, ex=exa, data=value_op(rng, False)))
+    if not cls or rng.random() < 0.5:
+        steps.append({"op": "tick", "n": 2, "order": "te"})
+        ticks += 2
+    nb = rng.choice([1, 1, 2]) if cnt >= 2 else 1
+    for b in range(nb):
+        steps.append(dict(base, op="lock", lid=2 + b, flag=0, ef=cls, ex=1800, data=""))
+    if not cls:
+        steps.append({"op": "tick", "n": 2, "order": "te"})
+        ticks += 2
+    outage = rng.choice([2, 5, 12])
+    if variant == "expired":
+        outage = exa + rng.choice([8, 20])       # A's record is over at the restart (the instance itself is stopped before)
+        steps.append({"op": "tick", "n": 2, "order": "te"})
+        ticks += 2
+    else:
+        steps.append(dict(base, op="unlock", lid=1, flag=0, ef=0, ex=0, cnt=0, data=""))
+        cfg["rewritesize"] = 12 + 64 * rng.choice([3, 4, 6])
+        # fillers on another database: rotation, compaction of the file that holds A's records
+        for j in range(rng.choice([4, 7, 10])):
+            steps.append({"op": "lock", "conn": 2, "db": db, "key": 90 + j, "lid": 7, "flag": 0, "tf": 0, "ef": 0x0100, "to": 0, "ex": 1800, "cnt": 0, "rc": 0,
+                          "data": "", "nodup": True})
+        if rng.random() < 0.5:
+            steps.append({"op": "rewrite", "during": []})
+        steps.append({"op": "tick", "n": 2, "order": "te"})
+        ticks += 2
+    steps.append({"op": "stop"})
+    if rng.random() < 0.5:
+        steps.append({"op": "restart", "hard": rng.random() < 0.5, "epoch2": [{"op": "stop"}]})
+    return {"name": f"carrier-{seed}-{idx}", "kind": "restart", "cfg": cfg, "back": ticks + outage, "imgcpt": False, "steps": steps}
+
+
+def gen_leftover(seed, idx):
+    """C16: a compaction that STARTS on the directory an interrupted compaction left behind (rewrite.aof.tmp(.dat) partial or
+    complete), followed by one more start.  Plain value-carrying holds (distinct keys, no re-entrancy), long-lived."""
+    g = Gen(seed, 950000 + idx, "compact")
+    rng = g.rng
+    p = g.profile()
+    db = rng.choice(p["dbs"])
+    cfg = {"bufsize": rng.choice([64, 64, 128]), "rewritesize": 12 + 64 * rng.choice([4, 6, 40, 40])}
+    steps = []
+    n = rng.choice([3, 4, 6, 9])
+    for j in range(n):
+        d = {"op": "lock", "conn": 1, "db": db, "key": 20 + j, "lid": 1 + j % 3, "flag": 0, "tf": 0, "ef": 0x0100, "to": 0, "ex": 1800 + 60 * j, "cnt": 0, "rc": 0,
+             "data": _value(rng, big=0.1) if rng.random() < 0.8 else "", "nodup": True}
+        steps.append(d)
+        if rng.random() < 0.2:
+            steps.append({"op": "unlock", "conn": 1, "db": db, "key": 20 + j, "lid": 1 + j % 3, "flag": 0, "tf": 0, "ef": 0, "to": 0, "ex": 0, "cnt": 0, "rc": 0, "data": ""})
+        if rng.random() < 0.15:
+            steps.append({"op": "rewrite", "during": []})
+    steps.append({"op": "rewrite", "during": []})
+    steps.append({"op": "stop"})
+    return {"name": f"leftover-{seed}-{idx}", "kind": "compact", "cfg": cfg, "back": rng.choice([3, 6, 12]), "imgcpt": True, "leftover": True, "steps": steps}
